@@ -66,6 +66,7 @@ type muxOp struct {
 	af       *ref.AF
 	strayOpt bool // hand an optional header struct to the Muxer although the stream id (0xBE/0xBF) has none
 	churn    int  // opChurn: number of add/remove cycles
+	staleLen bool // the adaptation field struct carries a stale value in its derived Length field (as one received from the Demuxer and edited would)
 	reuseMD  bool // hand over the MuxerData struct of an earlier WriteData on the same PID (refilled), as a caller that keeps one per stream would
 	reuseAF  bool // hand over the adaptation field struct (same pointer, same content) of the previous successful WriteData that had one
 	// Packet
@@ -75,7 +76,7 @@ type muxOp struct {
 var streamTypes = []astits.StreamType{astits.StreamTypeMPEG2Video, astits.StreamTypeH264Video, astits.StreamTypeH265Video, astits.StreamTypeAACAudio,
 	astits.StreamTypeMPEG1Audio, astits.StreamTypeAC3Audio, astits.StreamTypePrivateData, astits.StreamTypeMetadata, astits.StreamTypeDIRACVideo, astits.StreamTypeSCTE35}
 
-var explicitPIDPool = []uint16{0x20, 0x21, 0x100, 0x101, 0x102, 0x0fff, 0x1001, 0x1ffe, 0x1abc}
+var explicitPIDPool = []uint16{0x20, 0x21, 0x100, 0x101, 0x102, 0x0fff, 0x1001, 0x1ffe, 0x1abc, 0x1fff}
 
 func drawStreamType(t *rapid.T) astits.StreamType {
 	if gen.Chance(t, 80, "stk") {
@@ -233,6 +234,7 @@ func drawMuxOp(t *rapid.T, prof muxProfile) muxOp {
 		op.strayOpt = gen.Bool(t, "strayopt")
 		op.reuseAF = gen.Chance(t, 30, "reuseaf")
 		op.reuseMD = gen.Chance(t, 40, "reusemd")
+		op.staleLen = gen.Chance(t, 30, "stalelen")
 	case opPacket:
 		m := gen.TSPacket(t, "wp")
 		m.PID = 0x1f00 + uint16(rapid.IntRange(0, 15).Draw(t, "wppid"))
@@ -602,6 +604,9 @@ func runMuxHistoryUnguarded(period int, setPeriod bool, ops []muxOp, w *writerSp
 			}
 			if af != nil {
 				d.AdaptationField = conv.AFStruct(af, false)
+				if op.staleLen && !d.AdaptationField.IsOneByteStuffing {
+					d.AdaptationField.Length = 1 + (7*len(op.pes.Payload)+af.Size())%183
+				}
 				if reuse {
 					d.AdaptationField = lastAF
 				}
